@@ -136,6 +136,8 @@ def catalogue():
     C["hook_completed_wf"] = (wf("m", [step("s1", [irq("a1")])], setup=[{"uses": "acts.core.msg", "key": "done_wf", "on": "completed"}]), {})
     C["hook_completed_act"] = (wf("m", [step("s1", [irq("a1", setup=[{"uses": "acts.core.msg", "key": "done_act", "on": "completed"}])])]), {})
     C["params_template"] = (wf("m", [step("s1", [irq("a1", params={"v": "{{ v }}"}, _pre_actions=[["SetProcessVars", {"v": 2}]])]), step("s2", [irq("a2")])], inputs={"v": 1}), {})
+    C["catch_multi_step"] = (wf("m", [step("s1", [irq("a1")], catches=[catch([step("cs1", [irq("ca1")]), step("cs2", [irq("ca2")])], on="e1")]), step("s2", [irq("a3")])]), {})
+    C["auto"] = (wf("m", [step("s1", [msg("m1")])]), {})
     C["tail_if"] = (wf("m", [step("s1", [irq("a1")]), step("s2", [irq("a2")], **{"if": "c1"})]), {"c1": "$bool"})
     C["branch_tail_if"] = (wf("m", [step("s1", branches=[
         branch("b1", [step("s11", [irq("a1")]), step("s12", [irq("a2")], **{"if": "c2"})], **{"if": "c1"}),
